@@ -201,6 +201,13 @@ def execute(ctx, case: dict) -> None:
                 acl.ungroup()
                 acl.group(prefix)
                 _record(acl, "regroup")
+            elif op == "assign-self":
+                # the items assigned to themselves through the setter (plain and augmented assignment): nothing may get lost
+                if rng.random() < 0.5:
+                    acl.items = acl.items
+                else:
+                    acl.items += []
+                _record(acl, "regroup")
             elif op == "group-again":
                 acl.group(prefix)  # on the ACL as it stands (blocks possibly moved), without ungrouping first
                 _record(acl, "regroup")
@@ -306,7 +313,7 @@ def gen_case(rng, thorough=False):
     ops = ["group"]
     for _ in range(rng.randint(1, 6)):
         ops.append(rng.choice(["reverse", "shuffle", "rotate", "sort-key", "sort-rev", "regroup", "shuffle", "reseq-shuffle-sort",
-                               "group-again", "group-again"]))
+                               "group-again", "group-again", "assign-self"]))
     ops.append(rng.choice(["ungroup", "reseq-shuffle-sort", "ungroup"]))
     if members and rng.random() < 0.3:
         ops.insert(rng.randint(0, len(ops)), "degroup-address")
